@@ -65,6 +65,22 @@ def _sig(label, detail):
 
 
 def run_unit(args):
+    """Explore one unit in a thread with a large stack: the regex matcher and the lazy term builder
+    recurse per input character (the interpreter's default limits are for ordinary programs)."""
+    import threading
+
+    out = []
+    threading.stack_size(512 * 1024 * 1024)
+    old = sys.getrecursionlimit()
+    sys.setrecursionlimit(max(old, 60000))
+    t = threading.Thread(target=lambda: out.append(_run_unit(args)))
+    t.start()
+    t.join()
+    sys.setrecursionlimit(old)
+    return out[0]
+
+
+def _run_unit(args):
     """Explore one unit (one shape) exhaustively.  Runs in a worker process."""
     mod_name, unit, opts = args
     t0 = time.time()
